@@ -315,6 +315,10 @@ pub fn judge(o: &Outcome, survivor: bool, observer: u8) -> Vec<(String, Value)> 
             p.push((format!("damaged-message-delivered:{}", on), json!({"seq": m.0, "len": m.3, "payload_intact": m.1, "attachments_intact": m.2})));
         }
     }
+    // the child's send returned Ok (it wrote that down before exiting): that message counts as sent
+    if o.child_send_ok && o.stuck.is_none() && !msgs.iter().any(|m| m.0 == 2) {
+        p.push((format!("completed-message-not-delivered:{}", on), json!({"observed": o.obs.iter().map(|x| format!("{:?}", x)).collect::<Vec<_>>()})));
+    }
     let seqs: Vec<u32> = msgs.iter().map(|m| m.0).collect();
     let mut sorted = seqs.clone();
     sorted.sort();
